@@ -405,6 +405,14 @@ def rand_roi(rng, shape, axis, malformed=False):
     return tuple(rand_axis_slice(rng, shape[i], allow_out=(i in (axis, axis + 1))) for i in range(k))
 
 
+DTYPES = ("uint8", "uint16", "uint32", "uint64", "int8", "int16", "int32", "int64", "float32", "float64")
+
+
+def cdtype(d) -> str:
+    d = np.dtype(d)
+    return f"({ {'u': 'DU', 'i': 'DI', 'f': 'DF'}[d.kind]} {cz(d.itemsize * 8)})"
+
+
 def croi_opt(roi) -> str:
     if roi is None:
         return "None"
@@ -486,6 +494,28 @@ def gen_block_cases(out, tier):
                     continue
             t, kind = cres(clist, lambda: ba.extract(roi=roi).shape)
             add("ba_out_shape:" + kind, f"CBOutShape {head} {croi_opt(roi)} {t}", (tuple(bl), chy, chx, ax_used, enc(roi)))
+
+    # working dtype: every pair, random lists in every insertion order, each kind of fill value
+    dts = list(DTYPES)
+    lists = [()] + [(a,) for a in dts] + [(a, b) for a in dts for b in dts]
+    for _ in range(120 if tier == "quick" else 1500):
+        lists.append(tuple(rng.choice(dts) for _ in range(rng.randint(3, 5))))
+    for di, dl in enumerate(lists):
+        blocks = {(0, j): np.zeros((1, 1), dtype=d) for j, d in enumerate(dl)}
+        ba = BlockAssembler(blocks, ((1,), (1,) * max(1, len(dl))))
+        kind, fill = [("FillNone", None), ("FillInt", 7), ("FillFloat", 0.5), ("FillFloat", float("nan")),
+                      ("FillInt", -1)][di % 5]
+        if kind == "FillInt" and fill < 0 and any(d.startswith("u") for d in dl) and not any(
+                d.startswith("i") or d.startswith("f") for d in dl):
+            fill = 7
+        try:
+            got = ba.extract(fill).dtype
+        except Exception:     # reported by the search (assembler_mixed); here the case simply differs from the model
+            got = np.dtype("uint8") if ba.dtype != np.dtype("uint8") else np.dtype("int8")
+        add("ba_dtype:" + kind, f"CBDtype {clist(dl, cdtype)} {kind} {cdtype(ba.dtype)} {cdtype(got)}",
+            (dl, kind), len(set(dl)) > 1,
+            {"op": "BlockAssembler.dtype", "block_dtypes": list(dl), "fill": repr(fill), "dtype": str(ba.dtype),
+             "extract_dtype": str(got)} if di == 37 else None)
 
     n_val = 150 if tier == "quick" else 1200
     for vi in range(n_val):
@@ -823,7 +853,59 @@ def p_assembler(chunks, pre, post, present, dtype, fill, roi, seed):
     return True, f"shape={ba.shape} roi={roi}"
 
 
-PREDICATES = {"partition": p_partition, "index": p_index, "block": p_block, "locate_roundtrip": p_locate_roundtrip, "crop": p_crop,
+def limit_values(dtype, shape, r):
+    """values at and near the limits of the dtype (plus a few ordinary ones)"""
+    dt = np.dtype(dtype)
+    if dt.kind == "f":
+        fi = np.finfo(dt)
+        pool = [fi.max, -fi.max, fi.tiny, 0.1, -2.5, 1.0 + fi.eps, 0.0, 12345.678]
+    else:
+        ii = np.iinfo(dt)
+        pool = [ii.max, ii.max - 1, ii.min, ii.min + 1, 0, 1, ii.max // 2 + 1, 200]
+        pool = [v for v in pool if ii.min <= v <= ii.max]
+    a = np.array(pool, dtype=dt)
+    return a[r.randint(0, len(a), size=shape)]
+
+
+def p_assembler_mixed(chunks, pre, post, order, fill, roi, seed):
+    """blocks of different dtypes, inserted in `order` = [(key, dtype), ...], values at the dtype limits:
+    the result must be the window of the mosaic held in the promoted dtype np.result_type(all blocks), exactly"""
+    from odc.geo._blocks import BlockAssembler
+    chy, chx = (tuple(c) for c in chunks)
+    pre, post = tuple(pre), tuple(post)
+    order = [(tuple(k), d) for k, d in order]
+    r = np.random.RandomState(seed)
+    data = {k: limit_values(d, (*pre, chy[k[0]], chx[k[1]], *post), r) for k, d in sorted(order)}
+    blocks = {k: data[k] for k, _ in order}         # dict order = insertion order under test
+    axis = len(pre)
+    ba = BlockAssembler(blocks, (chy, chx), axis=axis)
+    want_dt = np.result_type(*[b.dtype for b in blocks.values()])
+    dt_note = ""
+    if ba.dtype != want_dt:
+        dt_note = f"dtype {ba.dtype} but the blocks {[str(b.dtype) for b in blocks.values()]} need {want_dt}; "
+    if fill is None:
+        fillv = np.nan if want_dt.kind == "f" else 0
+        got = ba.extract(roi=roi)
+    else:
+        fillv = want_dt.type(fill)
+        got = ba.extract(fillv, roi=roi)
+    ref = build_mosaic((chy, chx), pre, post, blocks, fillv, want_dt)
+    want = ref[ref_roi(roi, ref.shape, axis)] if roi is not None else ref
+    if got.dtype != want_dt:
+        dt_note += f"extract gave dtype {got.dtype}, the promoted dtype of the blocks is {want_dt}; "
+    if got.shape != want.shape or not np.array_equal(got, want, equal_nan=(want_dt.kind == "f")):
+        where = ""
+        if got.shape == want.shape:
+            bad = np.argwhere(~((got == want) | ((got != got) & (want != want))))
+            where = f": first difference at {bad[0].tolist()}: got {got[tuple(bad[0])]!r} want {want[tuple(bad[0])]!r}"
+        return False, (f"{dt_note}blocks {[(k, str(b.dtype)) for k, b in blocks.items()]} (insertion order): "
+                       f"extract(roi={roi}) is not the window of the {want_dt} mosaic{where}")
+    if dt_note:
+        return False, dt_note
+    return True, f"dtype={want_dt} shape={got.shape}"
+
+
+PREDICATES = {"assembler_mixed": p_assembler_mixed, "partition": p_partition, "index": p_index, "block": p_block, "locate_roundtrip": p_locate_roundtrip, "crop": p_crop,
               "clip": p_clip, "geoboxtiles": p_geoboxtiles, "assembler": p_assembler}
 
 
@@ -919,6 +1001,33 @@ def search(out, tier):
         if dtype.startswith("u") and fill < 0:
             fill = 0
         run("assembler", (chy, chx), pre, post, present, dtype, fill, roi, i)
+    # heterogeneous block dtypes, every insertion order (all permutations up to 3 blocks)
+    families = [("uint8", "uint16", "uint32"), ("int8", "int16", "int32"), ("float32", "float64"),
+                ("uint8", "int16", "float32"), ("uint16", "int16", "int32"), ("uint8", "uint16", "float64"),
+                ("int16", "uint16", "float32"), ("uint32", "int32", "int64"), ("uint8", "uint64"), ("int32", "float64")]
+    for i in range(60 if tier == "quick" else 600):
+        chy, chx, pre, post, present, mode = rand_layout(rng)
+        keys = [(iy, ix) for iy in range(len(chy)) for ix in range(len(chx))]
+        present = rng.sample(keys, min(len(keys), rng.choice([2, 2, 3, 3, 4])))
+        if len(present) < 2:
+            chx = chx + (2,)
+            present = [(0, len(chx) - 2), (0, len(chx) - 1)]
+        fam = families[i % len(families)]
+        dts = [fam[j % len(fam)] for j in range(len(present))]
+        rng.shuffle(dts)
+        pairs = list(zip(present, dts))
+        if len(pairs) <= 3:
+            orders = list(itertools.permutations(pairs))
+        else:
+            by_size = sorted(pairs, key=lambda kd: (np.dtype(kd[1]).itemsize, kd[1]))
+            orders = [by_size, by_size[::-1], rng.sample(pairs, len(pairs))]
+        shape = (*pre, sum(chy), sum(chx), *post)
+        axis = len(pre)
+        roi = None if i % 3 == 0 else (rand_axis_slice(rng, shape[axis], allow_int=False, allow_out=False),
+                                       rand_axis_slice(rng, shape[axis + 1], allow_int=False, allow_out=False))
+        fill = [None, 0, 1][i % 3]
+        for od in orders:
+            run("assembler_mixed", (chy, chx), pre, post, [(k, d) for k, d in od], fill, roi, i)
 
 
 # ---------------------------------------------------------------- entry points
@@ -930,14 +1039,18 @@ def run(out, tier, scratch):
                 "to 2^64, and a malformed stream (zero tile size, int64 overflow, empty selections, out-of-range indices); "
                 "BlockAssembler: random layouts of 1..4 x 1..4 chunks, axis layouts YX/SYX/YXS/SYXS/SSYX, random subsets of "
                 "present blocks, malformed blocks, random rois (None, item, 2-tuple, full tuple, too long), block contents "
-                "given by a formula shared with the model so that every output value is compared.  A case is non-trivial "
+                "given by a formula shared with the model so that every output value is compared; the working dtype for every "
+                "pair of the 10 int/float dtypes and random dtype lists with None/int/float fill.  A case is non-trivial "
                 "unless the result is an empty array; distinct = distinct canonical (operation, arguments).  search: the "
                 "property's clauses evaluated on the implementation pixel by pixel; numpy builds the reference mosaic")
     out.assumptions += [
         "numpy int64 cumsum/asarray/diff/searchsorted(right) on sorted offsets as formalised in Model.Tiles "
         "(wrap64, np_at, diffs, searchsorted_right); validated on every case",
         "numpy basic slicing, np.full and np.copyto between equal extents as formalised in Model.Blocks (eff, "
-        "np_copyto_view); broadcasting of extent-1 sources, dtype promotion and casting are numpy's (oracle)",
+        "np_copyto_view); broadcasting of extent-1 sources and the casting of values are numpy's (oracle)",
+        "np.result_type over the block dtypes as formalised by Model.Blocks.ba_dtype (widest unsigned/signed/floating member "
+        "rule) and the fill-value upgrade ba_extract_dtype; validated on every pair of the 10 integer/float dtypes, random "
+        "lists and all three kinds of fill value",
         "a GeoBox is abstracted to its pixel window (offset, shape) in the root grid; the affine algebra of "
         "GeoBox.__getitem__ belongs to C02",
     ]
@@ -975,7 +1088,7 @@ def replay(rp) -> int:
 
 
 META = {
-    "text": ("Coq theorems (coq/Props/C04.v, 29, all closed under the global context) over Gallina models of "
+    "text": ("Coq theorems (coq/Props/C04.v, 31, all closed under the global context) over Gallina models of "
              "Tiles, VariableSizedTiles, clip_tiles, GeoboxTiles and BlockAssembler.  For every base size >= 0 and tile "
              "size >= 1 (regular) and every pair of chunk tuples with non-negative entries and totals < 2^63 (variable): "
              "the tile count is the ceiling division; [r,c] returns tile_region = [B r, B(r+1)) x [B c, B(c+1)) with "
@@ -988,7 +1101,8 @@ META = {
              "clip_tiles = crop to the bounding block with re-based indices; GeoboxTiles[r,c] = base cropped to "
              "Tiles[r,c], chunk_shape its shape, crop/clip keep every tile's absolute pixel window.  BlockAssembler: the "
              "constructor accepts every subset of well-shaped blocks and computes the mosaic shape, rejects a mis-shaped "
-             "block; a (ry,rx) request is normalised to a window; for every window with 0<=start<=stop, every subset of "
+             "block; the working dtype is independent of the insertion order of the blocks and (integer blocks <= 32 bits) holds every "
+             "value of every block; a (ry,rx) request is normalised to a window; for every window with 0<=start<=stop, every subset of "
              "present blocks, every extra-axis re-indexing and cast, extract = window shape and at each pixel the block "
              "value of the tile containing it if present else fill (proved by instantiating C17's slice_intersect3 "
              "theorem and the partition theorem).  The models are tied to odc/geo/roi.py, geobox.py, _blocks.py by "
@@ -1001,7 +1115,10 @@ META = {
              "arrays (np_at), np.diff, np.searchsorted(right) on sorted offsets as 'number of entries <= v'; Python "
              "tuple slicing; numpy basic slicing clamps to the extent (eff), np.full, np.copyto between views of equal "
              "extents (np_copyto_view; broadcasting of extent-1 sources is not modelled, the theorem shows the extents "
-             "are equal), np.squeeze on shapes only; dtype promotion/casting is an arbitrary function cast (oracle); the "
+             "are equal), np.squeeze on shapes only; np.result_type of the block dtypes is modelled (ba_dtype, correspondence on all dtype pairs and random lists), the "
+             "casting of values is an arbitrary function cast (oracle; the search compares every pixel of heterogeneous-dtype "
+             "blocks with values at the dtype limits, in every insertion order, against a numpy mosaic held in the promoted "
+             "dtype); the "
              "slicing of the leading/trailing axes by the window's extra slices is an arbitrary re-indexing esel "
              "(oracle; correspondence restricted to in-range extra slices); min/max over the selection in clip_tiles as "
              "folds.  A GeoBox is abstracted to its pixel window (offset, shape) in a root grid: the affine algebra of "
